@@ -81,6 +81,11 @@ def main():
         if problems:
             print("FIDELITY-PROBLEMS %r" % problems[:5])
     n, d = battery(mods)
+    if mode == "on":
+        from . import shim
+        if shim.STATE.hook_error_count:
+            print("FIDELITY-PROBLEMS %d monitor hook(s) raised: %r" % (
+                shim.STATE.hook_error_count, shim.STATE.hook_errors[:2]))
     print("NONINT mode=%s calls=%d shims=%d digest=%s" % (mode, n, nshim, d))
 
 
